@@ -37,11 +37,12 @@ def strategy(tier):
         P = draw(trees.piece_length(tier))
         route = draw(st.sampled_from(["lib", "lib", "cli"]))
         t = draw(trees.tree(P, max_files=8 if tier == "quick" else 24, cli_safe=(route == "cli")))
-        auto = draw(st.integers(0, 9)) == 0
+        auto = draw(st.sampled_from([True] + [False] * 9))
         return {
             "tree": t, "P": None if auto else P,
             "P_form": draw(st.sampled_from(["int", "exp", "str", "expstr"])),
             "route": route, "progress": draw(st.sampled_from([0, 0, 1, 2])),
+            "spelling": draw(st.sampled_from(["abs", "abs", "rel", "dot-rel"])),
         }
     return case()
 
@@ -141,6 +142,12 @@ def run_case(case):
         root = sandbox.materialize(tree, os.path.join(scr, "src"))
         out = os.path.join(scr, "out", "o.torrent")
         P = case["P"]
+        old_cwd = os.getcwd()
+        sp = case.get("spelling", "abs")
+        if sp != "abs":
+            # the content root given relative to the working directory (its parent)
+            os.chdir(os.path.dirname(root))
+            root = os.path.basename(root) if sp == "rel" else "./" + os.path.basename(root)
         try:
             if case["route"] == "lib":
                 kw = {"progress": case["progress"]}
@@ -155,6 +162,8 @@ def run_case(case):
             m = vmeta.Meta.from_file(out)
         except Exception as e:  # any failure on a valid input is a violation of "a v1 metafile created from any..."
             return Outcome(Violation("C01:exception:%s" % type(e).__name__, "create raised %r" % (e,)), True, ["exception"])
+        finally:
+            os.chdir(old_cwd)
         return judge(m, tree, P)
 
 
